@@ -2194,3 +2194,229 @@ func (c *Ctx) r1015() {
 	}
 	c.R.Floor(rule, "look-ahead loops with a growing index", n, 5)
 }
+
+// R04.20 (generic, all library packages): a scratch slice hoisted out of a loop does not carry one iteration's
+// elements into the next.
+func (c *Ctx) r0420(rule string, rels []string) {
+	c.R.Rule(rule, "a local slice declared outside a loop and re-sliced inside it to a constant non-zero length (`x = x[:2]`) still holds what the previous iteration stored. Unless every element is overwritten before it is read — a range loop over x whose body unconditionally stores `x[key]`, or a clear(x), directly after the reslice — an iteration that fills only some elements reads the others from the iteration before: `background-position:left 10% top 20%,right 5px bottom 5px` became `10% 20%,10% 20%` when the two offsets were allocated once for all layers. The rule has no instance on the pinned tree; its self-test mutant introduces one")
+	n := 0
+	for _, rel := range rels {
+		pk := c.P.Pkg(rel)
+		if pk == nil {
+			continue
+		}
+		info := pk.TypesInfo
+		for _, fd := range load.FuncDecls(pk) {
+			if fd.Body == nil {
+				continue
+			}
+			var loops []*ast.BlockStmt
+			var walk func(list []ast.Stmt)
+			visit := func(st ast.Stmt) {
+				ast.Inspect(st, func(x ast.Node) bool {
+					switch l := x.(type) {
+					case *ast.FuncLit:
+						return false
+					case *ast.ForStmt:
+						loops = append(loops, l.Body)
+						walk(l.Body.List)
+						loops = loops[:len(loops)-1]
+						return false
+					case *ast.RangeStmt:
+						loops = append(loops, l.Body)
+						walk(l.Body.List)
+						loops = loops[:len(loops)-1]
+						return false
+					case *ast.BlockStmt:
+						walk(l.List)
+						return false
+					case *ast.CaseClause:
+						walk(l.Body)
+						return false
+					case *ast.CommClause:
+						walk(l.Body)
+						return false
+					}
+					return true
+				})
+			}
+			walk = func(list []ast.Stmt) {
+				for i, st := range list {
+					as, ok := st.(*ast.AssignStmt)
+					if !ok {
+						visit(st)
+						continue
+					}
+					if as.Tok != token.ASSIGN || len(as.Lhs) != 1 || len(as.Rhs) != 1 || len(loops) == 0 {
+						continue
+					}
+					lid, ok := as.Lhs[0].(*ast.Ident)
+					if !ok {
+						continue
+					}
+					se, ok := ast.Unparen(as.Rhs[0]).(*ast.SliceExpr)
+					if !ok || se.Low != nil || se.High == nil || nospace(str(se.X)) != lid.Name {
+						continue
+					}
+					if k, isK := intConst(info, se.High); !isK || k == 0 {
+						continue // x = x[:0] exposes nothing; x = x[:i] with a computed i is the compaction idiom (shrinks)
+					}
+					v, isVar := info.Uses[lid].(*types.Var)
+					if !isVar || v.IsField() {
+						continue
+					}
+					// declared outside the innermost loop around the reslice
+					body := loops[len(loops)-1]
+					if body.Pos() <= v.Pos() && v.Pos() <= body.End() {
+						continue
+					}
+					n++
+					cleared := false
+					if i+1 < len(list) {
+						switch nx := list[i+1].(type) {
+						case *ast.ExprStmt:
+							if ce, ok := nx.X.(*ast.CallExpr); ok && str(ce.Fun) == "clear" && len(ce.Args) == 1 && nospace(str(ce.Args[0])) == lid.Name {
+								cleared = true
+							}
+						case *ast.RangeStmt:
+							if nospace(str(nx.X)) == lid.Name && nx.Key != nil {
+								for _, bs := range nx.Body.List {
+									if a2, ok := bs.(*ast.AssignStmt); ok && len(a2.Lhs) == 1 {
+										if ie, ok := a2.Lhs[0].(*ast.IndexExpr); ok && nospace(str(ie.X)) == lid.Name && nospace(str(ie.Index)) == nospace(str(nx.Key)) {
+											cleared = true
+										}
+									}
+								}
+							}
+						}
+					}
+					c.R.Check(cleared, rule, fmt.Sprintf("%s.%s/%s re-sliced inside a loop is cleared first", pk.Name, load.FuncName(fd), lid.Name), c.pos(as), "followed by a clearing loop", "the slice "+lid.Name+" is declared outside the loop and re-sliced to "+str(se.High)+" elements inside it without being cleared: an iteration that does not store every element reads what the previous iteration left there")
+				}
+			}
+			walk(fd.Body.List)
+		}
+	}
+	c.R.Note("%s: %d hoisted slices re-sliced inside a loop", rule, n)
+}
+
+// R10.17: the helper that folds statement after statement into one comma expression extends its accumulator in place.
+func (c *Ctx) r1017() {
+	const rule = "R10.17"
+	c.R.Rule(rule, "optimizeStmtList folds a run of expression statements into one comma expression, one statement per loop iteration, by handing the expression accumulated so far (left.Value) to a helper as its first argument and storing the result in the next statement. The work is proportional to the input only if the helper extends that argument in place: when the first argument already is a comma expression the helper returns that same node and the only append that spreads a list spreads the second argument's. Copying the accumulated list on every call (`list = append(list, comma.List...)`) makes a run of n statements cost n²/2 element copies — 80 KB of `a();` allocates gigabytes. The rule decides this shape, not the running time")
+	pk := c.pkg(rule, "js")
+	fd := c.fn(rule, pk, "optimizeStmtList")
+	if fd == nil {
+		return
+	}
+	info := pk.TypesInfo
+	helpers := map[*types.Func]ast.Node{}
+	var order []*types.Func
+	var inLoop func(n ast.Node, depth int)
+	inLoop = func(n ast.Node, depth int) {
+		ast.Inspect(n, func(x ast.Node) bool {
+			switch l := x.(type) {
+			case *ast.ForStmt:
+				if l.Body != n {
+					inLoop(l.Body, depth+1)
+					return false
+				}
+			case *ast.RangeStmt:
+				if l.Body != n {
+					inLoop(l.Body, depth+1)
+					return false
+				}
+			case *ast.CallExpr:
+				if depth == 0 || len(l.Args) != 2 {
+					return true
+				}
+				f, _ := callee(info, l).(*types.Func)
+				if f == nil || f.Pkg() != pk.Types || f.Type().(*types.Signature).Recv() != nil {
+					return true
+				}
+				if nospace(str(l.Args[0])) != "left.Value" {
+					return true
+				}
+				if _, ok := helpers[f]; !ok {
+					helpers[f] = l
+					order = append(order, f)
+				}
+			}
+			return true
+		})
+	}
+	inLoop(fd.Body, 0)
+	c.R.Floor(rule, "helpers that receive the accumulated expression inside the statement loop", len(order), 1)
+	for _, f := range order {
+		hd := load.Func(pk, f.Name())
+		if hd == nil || hd.Body == nil || hd.Type.Params == nil || len(hd.Type.Params.List) == 0 || len(hd.Type.Params.List[0].Names) == 0 {
+			c.R.Unres(rule, "helper/"+f.Name(), c.pos(helpers[f]), "declaration of the helper not found")
+			continue
+		}
+		c.R.Func("js." + f.Name())
+		p0 := info.Defs[hd.Type.Params.List[0].Names[0]]
+		// v, ok := p0.(*js.CommaExpr)
+		var acc types.Object
+		ast.Inspect(hd.Body, func(x ast.Node) bool {
+			as, ok := x.(*ast.AssignStmt)
+			if !ok || len(as.Rhs) != 1 || len(as.Lhs) == 0 {
+				return true
+			}
+			ta, ok := as.Rhs[0].(*ast.TypeAssertExpr)
+			if !ok || ta.Type == nil || !strings.HasSuffix(nospace(str(ta.Type)), "CommaExpr") {
+				return true
+			}
+			if id, ok := ta.X.(*ast.Ident); ok && info.Uses[id] == p0 {
+				if lid, ok := as.Lhs[0].(*ast.Ident); ok && acc == nil {
+					acc = info.Defs[lid]
+					if acc == nil {
+						acc = info.Uses[lid]
+					}
+				}
+			}
+			return true
+		})
+		construct := f.Name() + " extends its first argument in place"
+		if acc == nil {
+			c.R.Bad(rule, construct, c.pos(hd), "the helper does not test whether its first argument already is a comma expression, so it cannot extend it in place")
+			continue
+		}
+		isAcc := func(e ast.Expr) bool {
+			id, ok := ast.Unparen(e).(*ast.Ident)
+			return ok && (info.Uses[id] == acc || info.Defs[id] == acc)
+		}
+		accList := func(e ast.Expr) bool {
+			se, ok := ast.Unparen(e).(*ast.SelectorExpr)
+			return ok && se.Sel.Name == "List" && isAcc(se.X)
+		}
+		bad := ""
+		returnsAcc := false
+		ast.Inspect(hd.Body, func(x ast.Node) bool {
+			switch s := x.(type) {
+			case *ast.CallExpr:
+				if id, ok := s.Fun.(*ast.Ident); ok && info.Uses[id] == types.Universe.Lookup("append") && s.Ellipsis.IsValid() && len(s.Args) == 2 && accList(s.Args[1]) {
+					bad = "append spreads the accumulated list " + str(s.Args[1]) + " at " + c.pos(s)
+				}
+				if id, ok := s.Fun.(*ast.Ident); ok && info.Uses[id] == types.Universe.Lookup("copy") && len(s.Args) == 2 && accList(s.Args[1]) {
+					bad = "copy of the accumulated list at " + c.pos(s)
+				}
+			case *ast.RangeStmt:
+				if accList(s.X) {
+					bad = "loop over the accumulated list at " + c.pos(s)
+				}
+			case *ast.ReturnStmt:
+				if len(s.Results) == 1 && isAcc(s.Results[0]) {
+					returnsAcc = true
+				}
+			}
+			return true
+		})
+		switch {
+		case bad != "":
+			c.R.Bad(rule, construct, c.pos(hd), bad+": every call copies everything folded so far")
+		case !returnsAcc:
+			c.R.Bad(rule, construct, c.pos(hd), "the helper never returns the comma expression it was given: a new node per call means the list is rebuilt per call")
+		default:
+			c.R.OK(rule, construct, c.pos(hd), "returns the node it was given; only the second argument's list is spread")
+		}
+	}
+}
